@@ -3,6 +3,7 @@ import N2k.Lemmas.TPSender
 import N2k.Lemmas.TPRecv
 import N2k.Lemmas.TPRecvStep
 import N2k.Lemmas.TPTime
+import N2k.Lemmas.TPLinkMain
 /-!
 # C10 — ISO transport protocol transfers complete intact or abort cleanly
 
@@ -27,11 +28,12 @@ theorem exQuiet : Quiet exSt 0 :=
 
 /-! ## packetisation -/
 
-/-- **Packetisation.** For every message of 9..223 bytes: the RTS and BAM announce frames carry the size, ⌈size/7⌉ and
+/-- **Packetisation.** For every message of at most 223 bytes (in particular 9..223, the range `SendMsg` hands to the
+transport protocol): the RTS and BAM announce frames carry the size, ⌈size/7⌉ and
 the PGN as J1939-21 lays them out; data packet `k` (`k` = 0, 1, …) is `[k+1, 7 payload bytes]` with 0xFF beyond the
 payload (bytes of `Data[]` beyond `DataLen` have no influence: only `data.take len` appears on the right); every packet
 has 8 bytes; and the reference receiver `tpReassemble` applied to all ⌈size/7⌉ packets returns the payload. -/
-theorem C10_packetise (m : Msg) (h9 : 9 ≤ m.len) (h223 : m.len ≤ 223) (hl : m.len ≤ m.data.length) :
+theorem C10_packetise (m : Msg) (h223 : m.len ≤ 223) (hl : m.len ≤ m.data.length) :
     announceBytes 16 m = tpAnnounce 16 (m.data.take m.len) m.pgn ∧
     announceBytes 32 m = tpAnnounce 32 (m.data.take m.len) m.pgn ∧
     packetCount m.len = tpPacketCount (m.data.take m.len).length ∧
@@ -189,7 +191,7 @@ theorem C10_bam_pacing_exact (t1 t2 : Nat) (h64 : t1 + 50 < M64) :
     ((t1 + 50) % M32 ≠ M32 - 1 → (Sched.fromNow .t32 t1 50).isTime .t32 (t1 + 50) = true) ∧
     (∀ f, t1 + 51 ≤ t2 → t2 < t1 + 50 + INT32_MAX → (Sched.fromNow f t1 50).isTime f t2 = true) ∧
     (∀ f, t1 ≤ t2 → t2 < t1 + 50 → (Sched.fromNow f t1 50).isTime f t2 = false) :=
-  ⟨isTime_fromNow_t64 t1 t2 50 h64, isTime_fromNow_t32_at t1 50 (by omega),
+  ⟨isTime_fromNow_t64 t1 t2 50 h64, isTime_fromNow_t32_at t1 50,
    fun f a b => isTime_fromNow_late f t1 t2 50 a b h64, fun f a b => isTime_fromNow_early f t1 t2 50 a b (by omega) h64⟩
 
 theorem emit_tp (n : Node) (m : Msg) (i : Nat) : (emit n m i).1.tp = n.tp := rfl
@@ -245,23 +247,6 @@ theorem C10_bam_first_packet (n : Node) (m : Msg) (i t2 : Nat)
 example : (exNode.tp 0).pend.pgn = 0 ∧ (startSendTP exNode { exMsg with dst := 255 } 0).2 = true := by decide
 
 /-! ## the receiving side -/
-
-/-- a TP.DT frame from `src` to `dst` with the 8 bytes `buf` -/
-def dtIn (src dst : Nat) (buf : List Nat) : Frame := ⟨n2kToCanId 6 60160 src dst, 8, buf⟩
-/-- a TP.CM frame from `src` to `dst` -/
-def cmIn (src dst : Nat) (buf : List Nat) : Frame := ⟨n2kToCanId 6 60416 src dst, 8, buf⟩
-
-theorem rxFrame_dt (n : Node) (src dst : Nat) (buf : List Nat) (hs : src < 256) (hd : dst < 256) (hb : buf.length = 8) :
-    rxFrame n (dtIn src dst buf) = finish (handleData n src dst 8 buf) := by
-  unfold rxFrame dtIn
-  rw [tpId_decode 60160 src dst (Or.inr rfl) hs hd, buf8_of_len8 _ _ hb]
-  simp only [TP_CM, TP_DT, Nat.reduceEqDiff, ↓reduceIte]
-
-theorem rxFrame_cm (n : Node) (src dst : Nat) (buf : List Nat) (hs : src < 256) (hd : dst < 256) (hb : buf.length = 8) :
-    rxFrame n (cmIn src dst buf) = handleCM n src dst buf := by
-  unfold rxFrame cmIn
-  rw [tpId_decode 60416 src dst (Or.inl rfl) hs hd, buf8_of_len8 _ _ hb]
-  simp [TP_CM, finish]
 
 /-- **Receiver.** On a quiet node whose device `i` owns address `dst`:
 1. an RTS `[16, size, packets, _, PGN]` from `src` for a message the node can hold (`size ≤ 223`, PGN known or the
@@ -402,5 +387,86 @@ theorem C10_timeouts_rx_single (a : Slot) (now32 pgn src dst : Nat) (hbusy : slo
 
 example : slotHit 126996 30 20 true { free := false, tp := true, pgn := 126998, src := 31, dst := 20, msgTime := 5 } = false ∧
     isTimeBefore 5 200 = true ∧ hasElapsed 5 100 200 = true := by decide
+
+/-! ## library sender and library receiver over a loss-free in-order channel -/
+
+/-- **End to end (RTS/CTS), partial.** Node A (one device `da`) hands a transport-flagged message of 9..223 bytes for the
+address of node B (one device `db`) to `SendMsg`. Both nodes are quiet, A has no transfer pending, B has a free receive slot
+and may hold the message (PGN known or filter off); the channel `wire` carries every frame, in order, into the other node's
+receive queue; `round` = B polls (`ParseMessages`), then A polls. Then `SendMsg` succeeds and after at most 33 rounds
+B's handler has been called exactly once - with the PGN, A's address as source, B's address as destination, the
+length and exactly the payload bytes - A's transfer is over (nothing pending, `StartSendTPMessage` is free again) and no
+frame is left in flight.
+
+What is missing for the full statement of DESIGN (hence `_partial`): no time passes during the exchange (both clocks
+stand still, so no timer can fire between frames: the "at least one poll per timeout" schedules are not quantified over);
+one device per node; BAM is not composed here (its sending side is `C10_bam_pacing` / `C10_bam_first_packet`, its
+receiving side is the same `handleData` path as in `C10_receiver`, without responses). -/
+theorem C10_end_to_end_partial (a b : Node) (da db : Dev) (m : Msg)
+    (hda : a.s.devs = [da]) (hdb : b.s.devs = [db]) (hqa : Quiet a.s 0) (hqb : Quiet b.s 0) (h64 : a.s.now + 100 < M64)
+    (haIdle : (a.tp 0).pend.pgn = 0) (haSent : a.s.drv.sent = []) (haRx : a.rxq = [])
+    (hbIdle : (b.tp 0).hasPending = false) (hbSent : b.s.drv.sent = []) (hbRx : b.rxq = []) (hbOut : b.out = [])
+    (hbFree : ∃ sl ∈ b.slots, sl.free = true) (hknown : (checkKnown m.pgn).1 = true ∨ ¬ b.onlyKnown = true)
+    (htp : m.tp = true) (h9 : 9 ≤ m.len) (h223 : m.len ≤ 223) (hdata : m.len ≤ m.data.length)
+    (hdst : m.dst = db.source) (hlow : m.pgn &&& 0xff = 0) (hp0 : m.pgn ≠ 0) (hp24 : m.pgn < 2^24)
+    (hid : n2kToCanId m.prio m.pgn da.source m.dst ≠ 0) :
+    (sendMsgTP a m (some 0)).2 = true ∧
+    ∃ r, r ≤ 33 ∧
+      (rounds r ((sendMsgTP a m (some 0)).1, b)).2.out =
+        [{ pgn := m.pgn, src := da.source, dst := db.source, prio := 7, len := m.len, tp := true, data := m.data.take m.len }] ∧
+      ((rounds r ((sendMsgTP a m (some 0)).1, b)).1.tp 0).pend.pgn = 0 ∧
+      ((rounds r ((sendMsgTP a m (some 0)).1, b)).1.tp 0).hasPending = false ∧
+      (rounds r ((sendMsgTP a m (some 0)).1, b)).1.s.drv.sent = [] ∧
+      (rounds r ((sendMsgTP a m (some 0)).1, b)).2.s.drv.sent = [] ∧
+      (rounds r ((sendMsgTP a m (some 0)).1, b)).1.rxq = [] ∧ (rounds r ((sendMsgTP a m (some 0)).1, b)).2.rxq = [] := by
+  have hdb251 : db.source ≤ 251 := by
+    obtain ⟨d', hd', hs, _⟩ := hqb.dev
+    rw [hdb] at hd'; simp at hd'; subst hd'; exact hs
+  have hstart := sendMsgTP_start a m da hqa (by rw [hda]; rfl) hlow hp0 hid htp h9 (by omega) haIdle
+  rw [haSent, haRx, List.nil_append] at hstart
+  rw [hstart]
+  refine ⟨rfl, ?_⟩
+  obtain ⟨j, a0, hj, ha0⟩ := start_slot_exists b.slots m.pgn da.source db.source hbFree
+  have hL : LinkHyp a b da db (pendMsg m da) j (b.slots.map (freeSess da.source db.source)) a0 :=
+    ⟨hda, hdb, hqa, hqb, h64, hbIdle, hdst, h9, h223, hdata, hp24, hp0, hknown, rfl, hj, ha0⟩
+  have hb : b = b.upd b.tp b.slots [] [] [] := by
+    have := (upd_self b).symm
+    rw [hbOut, hbSent, hbRx] at this; exact this
+  have hnp : 2 ≤ tpPacketCount m.len := by unfold tpPacketCount; omega
+  have hnp32 := tpPacketCount_le m.len h223
+  have hcpos := tpCtsPackets_pos (tpPacketCount m.len)
+  obtain ⟨r, S'', hr, hR⟩ := rounds_complete hL 32 0 (Nat.zero_mod _) (by show 0 < tpPacketCount m.len; omega) (by
+    show tpPacketCount m.len - 0 ≤ 32 * tpCtsPackets (tpPacketCount m.len)
+    have : 32 * 1 ≤ 32 * tpCtsPackets (tpPacketCount m.len) := Nat.mul_le_mul_left 32 hcpos
+    omega)
+  refine ⟨r + 1, by omega, ?_⟩
+  have hfirst := round_first hL
+  rw [show (pendMsg m da).dst = m.dst from rfl] at hfirst
+  have hpair : (a.upd (txTp a (pendMsg m da) 0 50) a.slots a.out [cmFrame da.source m.dst (announceBytes 16 (pendMsg m da))] [], b)
+      = (a.upd (txTp a (pendMsg m da) 0 50) a.slots a.out [cmFrame da.source m.dst (announceBytes 16 (pendMsg m da))] [],
+         b.upd b.tp b.slots [] [] []) := congrArg (Prod.mk _) hb
+  have hR' : rounds (r + 1) (a.upd (txTp a (pendMsg m da) 0 50) a.slots a.out [cmFrame da.source m.dst (announceBytes 16 (pendMsg m da))] [], b)
+      = (a.upd (doneTp a (pendMsg m da) (tpPacketCount m.len)) a.slots a.out [] [],
+         b.upd b.tp S'' [{ pgn := m.pgn, src := da.source, dst := db.source, prio := 7, len := m.len, tp := true,
+                            data := m.data.take m.len }] [] []) := by
+    rw [hpair]
+    simp only [rounds]
+    rw [hfirst]
+    exact hR
+  rw [hR']
+  refine ⟨rfl, ?_, ?_, rfl, rfl, rfl, rfl⟩
+  · simp [doneTp]
+  · simp [doneTp]
+
+/-- the hypotheses of `C10_end_to_end_partial` are satisfiable: the example node talks to a copy of itself at address 30 -/
+example : ∃ (a b : Node) (da db : Dev) (m : Msg), a.s.devs = [da] ∧ b.s.devs = [db] ∧ Quiet a.s 0 ∧ Quiet b.s 0 ∧ a.s.now + 100 < M64 ∧
+    (a.tp 0).pend.pgn = 0 ∧ a.s.drv.sent = [] ∧ a.rxq = [] ∧ (b.tp 0).hasPending = false ∧ b.s.drv.sent = [] ∧ b.rxq = [] ∧
+    b.out = [] ∧ (∃ sl ∈ b.slots, sl.free = true) ∧ ((checkKnown m.pgn).1 = true ∨ ¬ b.onlyKnown = true) ∧
+    m.tp = true ∧ 9 ≤ m.len ∧ m.len ≤ 223 ∧ m.len ≤ m.data.length ∧ m.dst = db.source ∧ m.pgn &&& 0xff = 0 ∧ m.pgn ≠ 0 ∧
+    m.pgn < 2^24 ∧ n2kToCanId m.prio m.pgn da.source m.dst ≠ 0 := by
+  refine ⟨exNode, { exNode with s := { exSt with devs := [{ exDev with source := 30 }] } }, exDev, { exDev with source := 30 }, exMsg,
+    rfl, rfl, exQuiet, ⟨⟨_, rfl, by decide, by decide⟩, rfl, rfl, rfl, rfl, rfl, by decide, by decide⟩, by decide, by decide, rfl, rfl,
+    by decide, rfl, rfl, rfl, ⟨{}, by simp [exNode], rfl⟩, by decide, by decide, by decide, by decide, by decide, by decide, by decide,
+    by decide, by decide, by decide⟩
 
 end N2k.C10
